@@ -111,6 +111,7 @@ _finding("rvc-shift-const-lhs-pattern-negative-immediate", ["riscv:rvc"], ["bino
 _finding("riscv-shift-by-constant-below-minus-32-assertion", RV, ["binop:<<:i32:rhs-lt-32", "binop:>>:i32:rhs-lt-32"],
          ["AssertionError:__setitem__:*"], ["riscv", "riscv:rvc"],
          [_c(k="binop", op="<<", ty="i32", a="param", b="c_min", use="ret"), _c(k="binop", op=">>", ty="i32", a="param", b="c_min", use="ret")])
+_finding("tailcall-new-entry-block-name-collides", ALL, [], ["AssertionError:do_emit:*", "combination:AssertionError:do_emit:*"], [], [])
 # ---- x86_64
 _finding("x86_64-8bit-mul-div-rem-uncovered", X86, ["binop:[*/%]:[iu]8"], ["uncovered:MUL[IU]8", "uncovered:DIV[IU]8", "uncovered:REM[IU]8"],
          ["x86_64"] * 3, [_bin("*", "u8"), _bin("/", "i8"), _bin("%", "u8")])
@@ -230,10 +231,10 @@ def plan(tier, seed, avoid):
 
 def floors(tier):
     if tier == "quick":
-        return {"evaluations": 8000, "observed.targets": 5, "observed.random_modules_compiled": 150,
+        return {"evaluations": 5500, "observed.targets": 5, "observed.random_modules_compiled": 150,
                 "observed.levels": 4, "observed.spill_or_pressure_functions": 200}
-    return {"evaluations": 150000, "observed.targets": 5, "observed.random_modules_compiled": 8000,
-            "observed.levels": 4, "observed.unrestricted_cells": 1000}
+    return {"evaluations": 100000, "observed.targets": 5, "observed.random_modules_compiled": 7000,
+            "observed.levels": 4, "observed.unrestricted_cells": 3000}
 
 
 def EXHAUSTIVE(tier):
@@ -655,7 +656,22 @@ def run_random(spec, mon):
             mon.bump(mon.obs["levels"], level, len(keep))
             if pressure:
                 mon.obs["spill_or_pressure_functions"] += len(keep)
-            e = compile_subset(api, m, arch, keep)
+            groups = [keep]
+            if "tailcall-new-entry-block-name-collides" in spec["avoid"]:
+                names = {}
+                for f in keep:
+                    for b in f.blocks:
+                        names.setdefault(b.name, set()).add(f.name)
+                if any(len(v) > 1 for v in names.values()):
+                    # avoid switch: equally named blocks of two functions never meet in one ir_to_object call
+                    groups = [[f] for f in keep]
+                    mon.bump(mon.obs, "modules_split_for_duplicate_block_names")
+            e = None
+            for g in groups:
+                e = compile_subset(api, m, arch, g)
+                if e is not None:
+                    keep = g
+                    break
             if e is None:
                 mon.obs["random_modules_compiled"] += 1
                 mon.obs["random_functions_compiled"] += len(keep)
@@ -745,6 +761,43 @@ def probe_freeze_self_move():
     return None
 
 
+def probe_duplicate_block_names():
+    setup()
+    from ppci import api, ir
+    from vlib import cgmatrix as cm
+
+    # the real pass on two self tail recursive functions
+    m = ir.Module("tc")
+    for name in ("fa", "fb"):
+        f = ir.Function(name, ir.Binding.GLOBAL, ir.i32)
+        m.add_function(f)
+        p = ir.Parameter("p", ir.i32)
+        f.add_parameter(p)
+        e, rec, done = ir.Block(name + "_entry"), ir.Block(name + "_rec"), ir.Block(name + "_done")
+        for b in (e, rec, done):
+            f.add_block(b)
+        f.entry = e
+        zero = ir.Const(0, name + "_zero", ir.i32)
+        one = ir.Const(1, name + "_one", ir.i32)
+        e.add_instruction(zero)
+        e.add_instruction(one)
+        e.add_instruction(ir.CJump(p, "<=", zero, done, rec))
+        done.add_instruction(ir.Return(zero))
+        d = ir.Binop(p, "-", one, name + "_dec", ir.i32)
+        rec.add_instruction(d)
+        c = ir.FunctionCall(f, [d], name + "_rc", ir.i32)
+        rec.add_instruction(c)
+        rec.add_instruction(ir.Return(c))
+    api.optimize(m, "2")
+    try:
+        api.ir_to_object([m], api.get_arch("x86_64"))
+    except Exception as e:  # noqa
+        mech, detail = cm.failure_mechanism(e)
+        return "two self tail recursive functions, optimize(2), ir_to_object x86_64 still raises %s (blocks %s)" % (
+            mech, sorted(b.name for f in m.functions for b in f.blocks if "new_entry" in b.name))
+    return None
+
+
 PROBES = {}
 
 
@@ -752,6 +805,7 @@ def _register():
     for key in FINDINGS:
         PROBES[key] = probe_cell(key)
     PROBES["ra-freeze-self-move-assertion"] = probe_freeze_self_move
+    PROBES["tailcall-new-entry-block-name-collides"] = probe_duplicate_block_names
 
 
 _register()
